@@ -725,6 +725,7 @@ class Evaluator:
     def do_match(self, scrut, arms, p, desc, line):
         outs = []
         remaining = {"some": True, "none": True, "ok": True, "err": True}
+        earlier = []  # patterns of the arms above: a catch-all arm is taken when none of them matched
         for arm in arms:
             pat = arm["pat"]
             q = p.fork()
@@ -773,9 +774,18 @@ class Evaluator:
                 elif pat["k"] == "struct":
                     # `Variant{field: (a, b, c), other}`: every name bound by the pattern shadows an outer one
                     self.bind(pat, Top("struct-pattern"), q)
+            ps = self.pat_str(pat)
             if not take:
+                if arm.get("guard") is None:
+                    earlier.append(ps)
                 continue
-            q.conds.append((f"{desc} matches {self.pat_str(pat)}", True, line, None))
+            if pat["k"] == "ident" and pat.get("name", "A")[0].islower() and pat.get("sub") is None:
+                ps = "_"  # a binding pattern catches everything that is left
+            if ps == "_" and earlier:
+                ps = "_ [not " + " | ".join(earlier) + "]"
+            elif arm.get("guard") is None:
+                earlier.append(ps)
+            q.conds.append((f"{desc} matches {ps}", True, line, None))
             body = arm["body"]
             # names bound by the pattern are visible in the arm only: restore what they shadowed afterwards
             names = self.pattern_names(pat)
